@@ -72,7 +72,8 @@ type frameObj struct {
 
 // frameInfo is the resolved modifies clause of the function under verification.
 type frameInfo struct {
-	all  bool
+	all    bool
+	ghosts bool // `modifies ghosts`: every ghost variable may change
 	keys map[string]bool
 	objs []frameObj
 }
@@ -801,7 +802,17 @@ func (e *Engine) materialize(v Val, t types.Type) Val {
 	return v
 }
 
-func seqLen(s *Term) *Term { return App("seq_len", SInt, s) }
+func seqLen(s *Term) *Term {
+	if isSeqLit(s) {
+		return IntLit(int64(len(s.op) - len("$seq:"))) // byte length of a string literal
+	}
+	if s.op == "$app:s2b" || s.op == "$app:b2s" {
+		if isSeqLit(s.args[0]) {
+			return seqLen(s.args[0])
+		}
+	}
+	return App("seq_len", SInt, s)
+}
 
 func (e *Engine) unop(fr *Frame, st *State, x *ssa.UnOp) Val {
 	switch x.Op {
